@@ -56,6 +56,9 @@ def main():
                 out["trace_digest"] = registry.trace_digest(trace)
                 if msg.get("want_trace") or rep["violations"]:
                     out["trace"] = trace
+            elif cmd == "enum":
+                rs = run_seed(msg["seed"], msg["prop"] + "-enum", msg["index"])
+                out["report"] = sim.enum_run(rs, jit=env.jit_enabled(), max_cases=int(msg.get("max_cases", 600)))
             elif cmd == "exec":
                 rep = sim.execute(msg["trace"])
                 out["report"] = rep
